@@ -88,9 +88,19 @@ def eval_poly(D, geo, dom, K, f, P, cls, ctx):
     diam = max(math.hypot(P[i][0] - P[j][0], P[i][1] - P[j][1]) for i in range(len(P)) for j in range(i))
     tol = 1e-6 + 5e-14 / diam
 
+    jumps = []
+
     def fn(s):
         pts = densify(dom, P, s)
         vs = [vec_of(D.inverse(q, f)) for q in pts]
+        # continuity monitor: consecutive boundary samples (also the ones placed exactly ON seams and edges by the pre-splitting)
+        # must map to neighbouring points: the map is smooth with a scale factor near K^0.5
+        for i in range(len(pts)):
+            j = (i + 1) % len(pts)
+            step = math.hypot(pts[i][0] - pts[j][0], pts[i][1] - pts[j][1])
+            gap = geo.ang(vs[i], vs[j])
+            if gap > 4 * math.sqrt(K) * step + 1e-12 and len(jumps) < 3:
+                jumps.append((s, pts[i], pts[j], gap, step))
         return abs(geo.laea_area(vs)) / (K * pa)
     ctx.case((f, tuple(P)))
     try:
@@ -100,6 +110,9 @@ def eval_poly(D, geo, dom, K, f, P, cls, ctx):
         return
     ctx.count('%s_%s' % (cls, verdict))
     ctx.count('size_%s' % ('small' if diam < 1e-2 else 'large'))
+    if jumps:
+        sj, p1, p2, gap, step = jumps[0]
+        ctx.fail('image_discontinuity', case, points_per_edge=sj, at=[list(p1), list(p2)], image_gap_rad=gap, planar_step=step)
     if verdict == 'held':
         ctx.maxi('area_ratio_err_held', abs(e), case)
         ctx.maxi('points_per_edge_needed', s, case)
